@@ -485,14 +485,16 @@ Proof.
   cbn [forallb] in Hb. repeat (apply andb_true_iff in Hb as [? Hb]).
   unfold apply_mask in Hm. cbn [length seq combine map] in Hm.
   injection Hm as _ _ _ _ _ _ _ _ _ _ _ _ M12 M13 M14 M15.
-  unfold apply_mask. cbn [length seq combine map forallb].
-  repeat (apply andb_true_iff; split); try assumption; try lia.
-  apply str_eqb_eq. unfold mask_byte in *. cbn [Z.of_nat Pos.of_succ_nat Pos.succ] in *.
-  replace (ones - 96 - 8 * 0) with (ones - 8 * 12) by lia.
-  replace (ones - 96 - 8 * 1) with (ones - 8 * 13) by lia.
-  replace (ones - 96 - 8 * 2) with (ones - 8 * 14) by lia.
-  replace (ones - 96 - 8 * 3) with (ones - 8 * 15) by lia.
-  rewrite M12, M13, M14, M15. reflexivity.
+  assert (Hmask : apply_mask [z11; z12; z13; z14] (ones - 96) = [z11; z12; z13; z14]).
+  { unfold apply_mask. cbn [length seq combine map]. unfold mask_byte in *.
+    cbn [Z.of_nat Pos.of_succ_nat Pos.succ] in *.
+    replace (ones - 96 - 8 * 0) with (ones - 8 * 12) by lia.
+    replace (ones - 96 - 8 * 1) with (ones - 8 * 13) by lia.
+    replace (ones - 96 - 8 * 2) with (ones - 8 * 14) by lia.
+    replace (ones - 96 - 8 * 3) with (ones - 8 * 15) by lia.
+    rewrite M12, M13, M14, M15. reflexivity. }
+  rewrite Hmask. apply andb_true_iff; split; [|apply str_eqb_eq; reflexivity].
+  cbn [forallb]. repeat (apply andb_true_iff; split); try assumption; try reflexivity; lia.
 Qed.
 
 Example net6_examples :
